@@ -214,10 +214,10 @@ Lemma mem_ref_ok_spec : forall m c, mem_ref_ok m c = true <-> MemRefOk m c.
 Proof.
   intros m c. unfold mem_ref_ok, MemRefOk.
   destruct (smem (c_type c) mem_types); [|split; intro H; [intro; discriminate | reflexivity]].
-  destruct (find_param (c_params c) "\MEMID"%string) as [[x|x|n]|]; split; intro H; try discriminate;
+  destruct (find_param (c_params c) "\MEMID"%string) as [[x|x|n]|] eqn:EP; split; intro H; try discriminate;
     try (destruct (H eq_refl) as [n' [mem [E _]]]; discriminate).
-  - intros _. destruct (find_mem (mod_mems m) n) as [mem|]; [|discriminate].
-    destruct (param_int (c_params c) "\WIDTH"%string) as [w|]; [|discriminate].
+  - intros _. destruct (find_mem (mod_mems m) n) as [mem|] eqn:EM; [|discriminate].
+    destruct (param_int (c_params c) "\WIDTH"%string) as [w|] eqn:EW; [|discriminate].
     exists n, mem. apply Z.eqb_eq in H. subst. auto.
   - destruct (H eq_refl) as [n' [mem [E [F G]]]]. inversion E; subst. rewrite F, G. apply Z.eqb_refl.
 Qed.
@@ -326,7 +326,7 @@ Proof.
   - intros [H1 [m [Hm H2]]]. split.
     + destruct (find_module (doc_modules d) (fs_type f)); [discriminate | reflexivity].
     + apply existsb_exists in H2. destruct H2 as [c [Hc H2]]. exists m, c.
-      repeat split; try assumption. apply cell_is_spec. assumption.
+      split; [assumption|]. split; [assumption|]. apply cell_is_spec. assumption.
   - intros [H1 [m [c [Hm [Hc H2]]]]]. split.
     + rewrite H1. reflexivity.
     + exists m. split; [assumption|]. apply existsb_exists. exists c. split; [assumption|].
@@ -362,11 +362,61 @@ Proof.
     + split; discriminate.
 Qed.
 
+Lemma NoDup_app_l : forall {A} (a b : list A), NoDup (a ++ b) -> NoDup a.
+Proof.
+  induction a as [|x a IH]; intros b H; [constructor|].
+  simpl in H. inversion H as [|? ? Hx Hr]; subst. constructor.
+  - intro Hin. apply Hx. apply in_or_app. left. assumption.
+  - apply (IH b). assumption.
+Qed.
+
 (* consequences of well-formedness in the declarative vocabulary *)
 Lemma wf_wire_lookup : forall ex d m, WfModule ex d m ->
   forall w, In w (mod_wires m) -> find_wire (mod_wires m) (w_name w) = Some w.
 Proof.
   intros ex d m W w Hw. apply In_find_wire; [|assumption].
   pose proof (wf_names_unique _ _ _ W) as H. unfold mod_names in H.
-  apply NoDup_app_remove_r in H. assumption.
+  apply NoDup_app_l in H. assumption.
 Qed.
+
+(* ------------------------------------------------------------------ naming (_ir._add_name) *)
+Lemma add_name_fresh : forall A n n' A',
+  NoDup A -> add_name A n = Some (n', A') ->
+  ~ In n' A /\ A' = n' :: A /\ NoDup A'.
+Proof.
+  intros A n n' A' Hnd H. unfold add_name in H.
+  destruct (smem n A) eqn:E1.
+  - destruct (smem (gen_name n (List.length A)) A) eqn:E2; [discriminate|].
+    inversion H; subst. apply (memb_false String.eqb String.eqb_eq) in E2.
+    repeat split; try assumption. constructor; assumption.
+  - inversion H; subst. apply (memb_false String.eqb String.eqb_eq) in E1.
+    repeat split; try assumption. constructor; assumption.
+Qed.
+
+Lemma assign_names_unique : forall ns A out fin,
+  NoDup A -> assign_names A ns = Some (out, fin) ->
+  NoDup out /\ (forall x, In x out -> ~ In x A) /\ NoDup fin /\
+  List.length out = List.length ns /\ (forall x, In x fin <-> In x out \/ In x A).
+Proof.
+  induction ns as [|n ns IH]; intros A out fin Hnd H; simpl in H.
+  - inversion H; subst. repeat split; try assumption; try constructor; simpl; tauto.
+  - destruct (add_name A n) as [[n' A']|] eqn:E1; [|discriminate].
+    destruct (assign_names A' ns) as [[out' fin']|] eqn:E2; [|discriminate].
+    inversion H; subst. destruct (add_name_fresh _ _ _ _ Hnd E1) as [F1 [F2 F3]]. subst A'.
+    destruct (IH _ _ _ F3 E2) as [G1 [G2 [G3 [G4 G5]]]].
+    split; [|split; [|split; [|split]]].
+    + constructor; [|assumption]. intro Hin. apply (G2 _ Hin). left. reflexivity.
+    + intros x [Hx|Hx] HA.
+      * subst. contradiction.
+      * apply (G2 _ Hx). right. assumption.
+    + assumption.
+    + simpl. rewrite G4. reflexivity.
+    + intro x. rewrite G5. simpl. split; intros [Hx|Hx]; auto.
+      * destruct Hx; auto.
+      * destruct Hx; auto.
+Qed.
+
+(* S3: the generated name collides with a name the user wrote *)
+Lemma assign_names_refuted :
+  assign_names [] ["a"; "a$2"; "a"]%string = None /\ no_dollar "a"%string = true.
+Proof. vm_compute. split; reflexivity. Qed.
